@@ -565,7 +565,10 @@ pub fn orchestrate<P: Property>(tier: Tier) -> i32 {
         by_class.entry(c.class.clone()).or_insert(c);
     }
     let known = load_known(&root);
-    let replay_dir = root.join("replays");
+    // FUSIM_OUT redirects replay and evidence files (used when the checks are pointed at a
+    // deliberately broken tree, so that the committed evidence is not overwritten)
+    let out_root = std::env::var("FUSIM_OUT").map(PathBuf::from).unwrap_or_else(|_| root.clone());
+    let replay_dir = out_root.join("replays");
     let _ = fs::create_dir_all(&replay_dir);
     let mut violations = 0u64;
     let mut known_hits: Vec<String> = vec![];
@@ -682,7 +685,7 @@ pub fn orchestrate<P: Property>(tier: Tier) -> i32 {
         "wall_s": wall,
         "violations": violations,
     });
-    let ev_dir = root.join("evidence");
+    let ev_dir = out_root.join("evidence");
     let _ = fs::create_dir_all(&ev_dir);
     let _ = fs::write(
         ev_dir.join(format!("{}.json", P::ID)),
